@@ -47,15 +47,24 @@ fn parse_type_ident(input: ParseStream) -> Result<String> {
     // dodgy hack to "support" generics for now
     let ident: syn::Ident = input.parse()?;
     let mut name = ident_name(&ident);
+    let mut depth = 0;
 
     loop {
         if input.peek(Token![<]) {
+            // The backend parses the name as a Rust type, recursing once per `<`.
+            depth += 1;
+            if depth > MAX_TYPE_NESTING {
+                return Err(input.error(format!(
+                    "type name is nested more than {MAX_TYPE_NESTING} levels deep"
+                )));
+            }
             input.parse::<Token![<]>()?;
             name += "<";
         } else if input.peek(syn::Ident) {
             let ident: syn::Ident = input.parse()?;
             name += &ident_name(&ident);
         } else if input.peek(Token![>]) {
+            depth = depth.saturating_sub(1);
             input.parse::<Token![>]>()?;
             name += ">";
         } else {
